@@ -353,9 +353,14 @@ def Eqn.treeDevs : Eqn → List Dev × Bool      -- (deviations, text ends insid
               | .bin _ _ _ => true) .funcArg (l.treeDevs.1 ++ r.treeDevs.1), false)
     else (l.treeDevs.1 ++ r.treeDevs.1, false)
 
+/-- deviations of the constants of an equation (with everything nested in their paths and filters) -/
+def Eqn.valDevs : Eqn → List Dev
+  | .val v => v.devs
+  | .un _ l => l.valDevs
+  | .bin _ l r => l.valDevs ++ r.valDevs
+
 /-- … `e.String()` -/
-def devsEqn (e : Eqn) : List Dev :=
-  e.treeDevs.1 ++ ((Item.devsL e.build).1.filter fun d => d != .equalPrec && d != .notScope && d != .funcArg)
+def devsEqn (e : Eqn) : List Dev := e.treeDevs.1 ++ e.valDevs
 
 /-! ## constructible objects -/
 
